@@ -123,6 +123,49 @@ theorem readName_start (P : X.Program) (m : X.Proc) (inp : X.Input) (fuel : Nat)
       | array id => simp at h
       | proc p => simp at h
 
+theorem readName_start_arr (P : X.Program) (m : X.Proc) (inp : X.Input) (fuel : Nat) (n : String) (r : ArrRef) :
+    X.readName (v1Ctx P m fuel) (v1Start P m inp) n ≠ .ok (.arr r) := by
+  intro h
+  unfold X.readName at h
+  cases hl : (v1Start P m inp).locals.lookup n with
+  | some b =>
+    rw [hl] at h
+    have := lookup_map_const _ _ _ _ _ hl
+    subst this
+    simp at h
+  | none =>
+    rw [hl] at h
+    simp only at h
+    cases hg : (v1Ctx P m fuel).genv.lookup n with
+    | none => rw [hg] at h; simp at h
+    | some g =>
+      rw [hg] at h
+      cases g with
+      | val w' => simp at h
+      | var =>
+        simp only at h
+        cases hv : (v1Start P m inp).gvars.lookup n with
+        | none => rw [hv] at h; simp at h
+        | some x =>
+          rw [hv] at h
+          have := lookup_map_const _ _ _ _ _ hv
+          subst this
+          simp at h
+      | array id =>
+        exfalso
+        simp only [v1Ctx, List.lookup_append] at hg
+        cases h1 : (P.globals.map fun d => (d.name, GBind.var)).lookup n with
+        | some x =>
+          rw [h1] at hg
+          have := lookup_map_const _ _ _ _ _ h1
+          simp only [Option.some_or, Option.some.injEq] at hg
+          exact absurd (hg.symm.trans this) (by simp)
+        | none =>
+          rw [h1] at hg
+          simp only [Option.none_or, List.lookup_cons, List.lookup_nil] at hg
+          split at hg <;> simp at hg
+      | proc p => simp at h
+
 theorem lookup_map_mem {α β} (l : List α) (f : α → String) (g : α → β) (n : String) (x : β)
     (h : (l.map fun d => (f d, g d)).lookup n = some x) : n ∈ l.map f := by
   induction l with
@@ -293,7 +336,7 @@ theorem v1_core (P : X.Program) (m : X.Proc) (inp : X.Input) (fuel : Nat) (β : 
       n ∈ cg.tbl.map (fun e => e.1.2) := by
     intro n a h
     exact v1Loc_names cg _ _ _ n a h
-  have wf0 := wfsCheck_sound _ _ _ hnames hy
+  have wf0 := wfsCheck_sound _ _ _ hnames (PCtx.arrOK_of_none _ (fun _ => rfl)) hy
   obtain ⟨K, hK⟩ : ∃ K : PCtx, K = v1K cg env (v1Ctx P m fuel) gs2.constMap m.locals.length memP.read :=
     ⟨_, rfl⟩
   have wf : K.WFS (iEpi cg.data (frameOf cg 0).size (lowerCode cg code)) := by rw [hK]; exact wf0
@@ -314,7 +357,9 @@ theorem v1_core (P : X.Program) (m : X.Proc) (inp : X.Input) (fuel : Nat) (β : 
   -- the initial representation
   have rep : Rep K (v1Start P m inp) memP := by
     refine ⟨by rw [hKsp]; exact hP1, fun n w h => by rw [hKρ] at h; simp at h, ?_, ?_, ?_, ?_,
-      fun n hn => by rw [hK] at hn; simp [v1K] at hn, by rw [hK]; rfl⟩
+      fun n hn => by rw [hK] at hn; simp [v1K] at hn, by rw [hK]; rfl,
+      fun n r h => by rw [hKxc] at h; exact absurd h (readName_start_arr P m inp fuel n r),
+      fun id cells h => by simp [v1Start] at h⟩
     · intro n w _ h
       rw [hKxc] at h
       exact absurd h (readName_start P m inp fuel n w)
@@ -345,7 +390,7 @@ theorem v1_core (P : X.Program) (m : X.Proc) (inp : X.Input) (fuel : Nat) (β : 
       · rename_i a ha
         exact ⟨a, ha, by simpa using this⟩
       · simp at this
-    · intro a _
+    · intro a _ _
       rw [hKhi]
   -- the body
   have hbody : okS m.body = true := by
@@ -369,7 +414,7 @@ theorem v1_core (P : X.Program) (m : X.Proc) (inp : X.Input) (fuel : Nat) (β : 
     rw [hKenv] at hsteps
     obtain ⟨c, hfin, hexit⟩ := v1_finish env _ _ _ _ _ hpos a2 b2 mem2 K.sp
       (spValue cg.globalsOffset).toNat s.io (by rw [hKsp]; omega) rep2.sp
-      (by have := rep2.link
+      (by have := rep2.link wf.toWF
           unfold PCtx.link at this
           rw [hKS, hKsp, show (spValue cg.globalsOffset).toNat - (frameOf cg 0).size + (frameOf cg 0).size
             = (spValue cg.globalsOffset).toNat from by omega, hKhi, hPlink] at this
